@@ -110,8 +110,8 @@ class Model(Object):
         state: dict
         """
         self.__dict__.update(state)
-        for y in ["reactions", "genes", "metabolites"]:
-            for x in getattr(self, y):
+        for y in ["reactions", "genes", "metabolites", "groups"]:
+            for x in getattr(self, y, []):
                 x._model = self
         if not hasattr(self, "name"):
             self.name = None
